@@ -176,6 +176,54 @@ def rule_udp_field_off(report, prog):
                  'udp _recv_data can see an RFOFF datagram and carry on: the loss of the peer\'s field is reported as TimeoutError (or not at all)')
 
 
+def _decision_table(f):
+    """{(handler class text, sorted path condition): raised class text} over the handlers of f: every raise a handler can reach, with
+    the outcomes of the tests on the way (negative relations are stated positively with the outcome flipped), whatever the nesting /
+    else / guard-clause spelling of the decision is."""
+    from ..canon import _negate
+    table = {}
+
+    def pos(test, outcome):
+        if isinstance(test, ast.Compare) and len(test.ops) == 1 and isinstance(test.ops[0], (ast.NotEq, ast.NotIn, ast.IsNot)):
+            return norm(_negate(test)), not outcome
+        if isinstance(test, ast.UnaryOp) and isinstance(test.op, ast.Not):
+            return pos(test.operand, not outcome)
+        return norm(test), outcome
+
+    def exc_of(r):
+        if r.exc is None:
+            return 'error'
+        return norm(r.exc.func) if isinstance(r.exc, ast.Call) else norm(r.exc)
+
+    def walk(stmts, conds, hname):
+        conds = list(conds)
+        for st in live(stmts):
+            if isinstance(st, ast.Raise):
+                table[(hname, tuple(sorted(set(conds))))] = exc_of(st)
+                return True
+            if isinstance(st, ast.Return):
+                return True
+            if isinstance(st, ast.If):
+                t_end = walk(st.body, conds + [pos(st.test, True)], hname)
+                f_end = walk(st.orelse, conds + [pos(st.test, False)], hname) if st.orelse else False
+                if t_end and f_end:
+                    return True
+                if t_end:
+                    conds.append(pos(st.test, False))
+                elif f_end:
+                    conds.append(pos(st.test, True))
+        return False
+    for t in walk_no_nested(f.node):
+        if isinstance(t, ast.Try):
+            for h in t.handlers:
+                walk(h.body, [], norm(h.type) if h.type is not None else '*')
+    return table
+
+
+def _show_table(tab):
+    return {'%s: %s' % (k[0], ' and '.join(('' if o else 'not ') + '(%s)' % c for c, o in k[1]) or 'always'): v for k, v in sorted(tab.items())}
+
+
 def rule_mapping(report, prog):
     # rcs380: compared strings are table keys
     cls = prog.cls('nfc.clf.rcs380.CommunicationError')
@@ -198,14 +246,21 @@ def rule_mapping(report, prog):
     report.check(d.get(0x80) == 'RECEIVE_TIMEOUT_ERROR' and d.get(0x400) == 'RF_OFF_ERROR', 'C13-R2',
                  key('nfc.clf.rcs380', 'timeout / field-off status bits'), m.relpath, 'rcs380 status table changed')
     # three-way mapping in every driver
+    T, X, B = 'nfc.clf.TimeoutError', 'nfc.clf.TransmissionError', 'nfc.clf.BrokenLinkError'
     specs = [
-        ('nfc.clf.pn53x.Device.send_cmd_recv_rsp', {'error.errno == 1': 'nfc.clf.TimeoutError', 'ELSE': 'nfc.clf.TransmissionError',
-                                                    'error.errno == errno.ETIMEDOUT': 'nfc.clf.TimeoutError', 'ELSE2': 'error'}),
-        ('nfc.clf.pn53x.Device.send_rsp_recv_cmd', {'error.errno in (10, 41, 49)': 'nfc.clf.BrokenLinkError', 'ELSE': 'nfc.clf.TransmissionError',
-                                                    'error.errno == errno.ETIMEDOUT': 'nfc.clf.TimeoutError', 'ELSE2': 'error'}),
-        ('nfc.clf.rcs380.Device.send_cmd_recv_rsp', {"error == 'RECEIVE_TIMEOUT_ERROR'": 'nfc.clf.TimeoutError', 'FALL': 'nfc.clf.TransmissionError'}),
-        ('nfc.clf.rcs380.Device.send_rsp_recv_cmd', {"error == 'RF_OFF_ERROR'": 'nfc.clf.BrokenLinkError',
-                                                     "error == 'RECEIVE_TIMEOUT_ERROR'": 'nfc.clf.TimeoutError', 'FALL': 'nfc.clf.TransmissionError'}),
+        ('nfc.clf.pn53x.Device.send_cmd_recv_rsp', {
+            ('Chipset.Error', (('error.errno == 1', True),)): T, ('Chipset.Error', (('error.errno == 1', False),)): X,
+            ('IOError', (('error.errno == errno.ETIMEDOUT', True),)): T, ('IOError', (('error.errno == errno.ETIMEDOUT', False),)): 'error'}),
+        ('nfc.clf.pn53x.Device.send_rsp_recv_cmd', {
+            ('Chipset.Error', (('error.errno in (10, 41, 49)', True),)): B, ('Chipset.Error', (('error.errno in (10, 41, 49)', False),)): X,
+            ('IOError', (('error.errno == errno.ETIMEDOUT', True),)): T, ('IOError', (('error.errno == errno.ETIMEDOUT', False),)): 'error'}),
+        ('nfc.clf.rcs380.Device.send_cmd_recv_rsp', {
+            ('CommunicationError', (("error == 'RECEIVE_TIMEOUT_ERROR'", True),)): T, ('CommunicationError', (("error == 'RECEIVE_TIMEOUT_ERROR'", False),)): X,
+            ('StatusError', ()): X}),
+        ('nfc.clf.rcs380.Device.send_rsp_recv_cmd', {
+            ('CommunicationError', (("error == 'RF_OFF_ERROR'", True),)): B,
+            ('CommunicationError', (("error == 'RECEIVE_TIMEOUT_ERROR'", True), ("error == 'RF_OFF_ERROR'", False))): T,
+            ('CommunicationError', (("error == 'RECEIVE_TIMEOUT_ERROR'", False), ("error == 'RF_OFF_ERROR'", False))): X}),
     ]
     # status bits combine (CommunicationError.__eq__ is a mask test), so the order of the tests is the priority of the classes:
     # field loss wins over a receive timeout that is reported together with it
@@ -219,43 +274,9 @@ def rule_mapping(report, prog):
                  'a status with both RF_OFF and RECEIVE_TIMEOUT set is classified as TimeoutError: the field loss is not reported as BrokenLinkError')
     for q, want in specs:
         f = prog.func(q)
-        got = {}
-        def exc_of(r):
-            return norm(r.exc.func) if isinstance(r.exc, ast.Call) else norm(r.exc)
-        for h in [h for t in walk_no_nested(f.node) if isinstance(t, ast.Try) for h in t.handlers]:
-            first_else = 'ELSE' if 'ELSE' not in got else 'ELSE2'
-            body = live(h.body)
-            for idx, st in enumerate(body):
-                if isinstance(st, ast.If):
-                    r = [x for x in st.body if isinstance(x, ast.Raise)]
-                    if r:
-                        got[norm(st.test)] = exc_of(r[0])
-                    r = [x for x in st.orelse if isinstance(x, ast.Raise)]
-                    if r:
-                        got[first_else] = exc_of(r[0])
-                elif isinstance(st, ast.Raise):
-                    # a raise that follows `if T: raise A` is the else arm of that test written without `else`
-                    prev = body[idx - 1] if idx else None
-                    if isinstance(prev, ast.If) and not prev.orelse and isinstance(last_live(prev.body), ast.Raise) and first_else not in got and \
-                            any(w in got for w in (norm(prev.test),)) and len([b for b in body if isinstance(b, ast.If)]) == 1 and 'FALL' not in want:
-                        got[first_else] = exc_of(st)
-                    else:
-                        got['FALL'] = exc_of(st)
-        # a two-armed decision spelled with the negative relation is the same decision: normalise to the positive relation
-        from ..canon import _negate
-        for h in [h for t in walk_no_nested(f.node) if isinstance(t, ast.Try) for h in t.handlers]:
-            ifs = [st for st in live(h.body) if isinstance(st, ast.If)]
-            if len(ifs) == 1 and isinstance(ifs[0].test, ast.Compare) and isinstance(ifs[0].test.ops[0], (ast.NotEq, ast.NotIn, ast.IsNot)):
-                neg = norm(ifs[0].test)
-                pos = norm(_negate(ifs[0].test))
-                other = [k for k in ('ELSE', 'ELSE2') if k in got]
-                # the else key that belongs to this handler is the last one assigned for it
-                if neg in got and other:
-                    ek = other[-1] if len(other) == 1 or neg not in list(got)[:list(got).index(other[0])] else other[-1]
-                    got[pos], got[ek] = got[ek], got[neg]
-                    del got[neg]
+        got = _decision_table(f)
         report.check(got == want, 'C13-R2', key(q, 'status -> error class mapping'), f.loc(),
-                     'error mapping of %s changed: %r (expected %r)' % (q, got, want))
+                     'error mapping of %s changed: %r (expected %r)' % (q, _show_table(got), _show_table(want)))
     # pn53x handlers catch exactly Chipset.Error and IOError
     for q in ('nfc.clf.pn53x.Device.send_cmd_recv_rsp', 'nfc.clf.pn53x.Device.send_rsp_recv_cmd'):
         f = prog.func(q)
